@@ -899,6 +899,9 @@ fn chain_case(c: &mut Case, m: &Value) {
         }
     };
     c.count(&format!("chains_built|{api}"), 1);
+    if let Some(k) = m["container_damage"].as_str() {
+        c.count(&format!("chains_with_unreadable_patch_entry|{}|{}|{k}", jstr(m, "corrupt_where"), jstr(m, "container_layout")), 1);
+    }
     let expect_kind = jstr(m, "expect_kind");
     let expect = m["expect"].as_str().map(unhex);
     let declared = m["declared_after"].as_str().map(unhex);
@@ -953,6 +956,9 @@ fn chain_case(c: &mut Case, m: &Value) {
                         "no-base".to_string()
                     } else if winner_unparseable {
                         "winner-unparseable".to_string()
+                    } else if m["container_damage"].is_string() {
+                        // the stored PTCH file is intact but its archive entry cannot be unpacked
+                        if jstr(m, "corrupt_where") == "top" { "winner-unreadable".to_string() } else { "lower-entry-unreadable".to_string() }
                     } else {
                         format!("{}|{}", jstr(m, "corrupt_where"), jstr(m, "sigtag"))
                     };
